@@ -25,11 +25,25 @@ theorem linkApp_dDir : dDir linkApp = linkDir fedUrl federationImportNames := by
 
 theorem linkApp_wf : ∀ d ∈ [linkApp], dirWf d = true := by decide
 
+/-- `extend schema` followed by directive applications -/
+def extToks (apps : List DirApp) : List Tok := .name (kw "extend") :: .name (kw "schema") :: dirsToks apps
+
+/-- a schema extension made of directive applications only, followed by another definition or
+    the end of the document -/
+theorem pDef_ext (apps : List DirApp) (hw : ∀ d ∈ apps, dirWf d = true) (hne : apps ≠ []) (rest : List Tok) (hr : DefEnd rest) :
+    pDef (extToks apps ++ rest) = some (.schema true (apps.map dDir) none none none, rest) := by
+  have hd := constDirs_toks apps hw rest hr.dirEnd
+  have hne' : (apps.map dDir).isEmpty = false := by cases apps <;> simp_all
+  cases hr with
+  | nil => simp only [List.append_nil] at hd; simp [extToks, pDef, pDesc, hd, hne']
+  | name n r => simp [extToks, pDef, pDesc, hd, hne']
+  | str v r => simp [extToks, pDef, pDesc, hd, hne']
+
+theorem fedSchemaToks_ext : fedSchemaToks = extToks [linkApp] := rfl
+
 theorem pDef_fedSchema : pDef fedSchemaToks = some (.schema true [linkDir fedUrl federationImportNames] none none none, []) := by
-  have hd := constDirs_toks [linkApp] linkApp_wf [] (by intro r; constructor <;> (intro e; cases e))
-  have e2 : kw "extend" = kw "extend" := rfl
-  simp only [List.append_nil] at hd
-  simp [fedSchemaToks, pDef, pDesc, hd, linkApp_dDir]
+  have := pDef_ext [linkApp] linkApp_wf (by simp) [] DefEnd.nil
+  simpa [fedSchemaToks_ext, linkApp_dDir] using this
 
 def quote (n : Text) : Text := '"' :: n ++ ['"']
 
@@ -63,16 +77,11 @@ theorem fedUrl_plain : escapeString false fedUrl = fedUrl := by decide
 theorem fedUrl_text : s "url: \"https://specs.apollo.dev/federation/v2.5\",\n" = kwT "url" ++ ':' :: ' ' :: '"' :: (fedUrl ++ '"' :: ',' :: ['\n']) := by
   decide
 
-/-- the `extend schema @link(…)` block of a federation export (no composable directive), with or
-    without the blank line of the compose option -/
-theorem Lx_fedSchema (o : Opts) (tail : Text) (ht : tail = [] ∨ tail = ['\n']) :
+/-- the `extend schema @link(…)` block of a federation export, whatever follows -/
+theorem Lx_fedSchema (o : Opts) (rest : Text) (ts : List Tok) (hend : Lx rest ts) :
     Lx (s "extend schema @link(\n" ++ tab o ++ s "url: \"https://specs.apollo.dev/federation/v2.5\",\n" ++
-      tab o ++ federationImports ++ s "\n)\n" ++ tail) fedSchemaToks := by
-  have hend : Lx tail [] := by
-    rcases ht with rfl | rfl
-    · exact Lx.nil
-    · exact Lx.ign (by decide) Lx.nil
-  have h1 : Lx ('\n' :: ')' :: '\n' :: tail) [.punct ')'] :=
+      tab o ++ federationImports ++ s "\n)\n" ++ rest) (fedSchemaToks ++ ts) := by
+  have h1 : Lx ('\n' :: ')' :: '\n' :: rest) (.punct ')' :: ts) :=
     Lx.ign (by decide) (Lx.punct (by decide) (Lx.ign (by decide) hend))
   have h2 := Lx_strList federationImportNames importNames_plain _ _ h1
   have h3 := Lx.ws (tab_ignored o) (Lx.name (n := kwT "import") (by decide) (valEnd_punct ':' _ (by decide)).nameEnd
